@@ -344,11 +344,11 @@ func kPlan(thorough bool) []*KConfig {
 		return c
 	}
 	if !thorough {
-		return []*KConfig{pick("K1-default", 4), pick("K2-nocache", 3), pick("K3a-shared-lru-1", 4), pick("K4-sessions-slru-1", 3)}
+		return []*KConfig{pick("K1-default", 5), pick("K2-nocache", 4), pick("K3a-shared-lru-1", 5), pick("K4-sessions-slru-1", 4)}
 	}
 	return []*KConfig{
-		pick("K1-default", 5), pick("K2-nocache", 4), pick("K3a-shared-lru-1", 5), pick("K3b-shared-lfu-1", 4), pick("K3c-shared-slru-1", 4),
-		pick("K4-sessions-slru-1", 4), pick("K5a-sk-only", 4), pick("K5b-ik-only", 4), pick("K6-shared-lru-2", 4), pick("K1-default-full", 4),
+		pick("K1-default", 6), pick("K2-nocache", 5), pick("K3a-shared-lru-1", 6), pick("K3b-shared-lfu-1", 5), pick("K3c-shared-slru-1", 5),
+		pick("K4-sessions-slru-1", 5), pick("K5a-sk-only", 5), pick("K5b-ik-only", 5), pick("K6-shared-lru-2", 5), pick("K1-default-full", 5),
 	}
 }
 
